@@ -65,6 +65,19 @@ def items_for(prop, tier):
         for v in variants:
             for mname in ['read_subplane', 'get_trace_2d']:
                 items.append(mk_item(prop, mname, bs, rate, (2, 2), tier, v))
+    # a faulted call followed by a fault-free call on the same reader (no state may survive the failure)
+    if prop == 'C17':
+        for (bs, rate, nb) in [((4, 4, 256), 8, (2, 2, 2)), ((64, 64, 4), 2, (2, 2, 1))] + ([] if quick else [((8, 8, 64), 8, (2, 1, 2))]):
+            for kind in ('exc', 'short'):
+                for backend in ('file', 'blob'):
+                    if quick and backend == 'blob' and kind == 'short':
+                        continue
+                    for mname in ['read_inline', 'read_crossline', 'read_zslice'] + ([] if quick else ['read_subvolume']):
+                        v = dict(fault=kind, faulted_first_call=True)
+                        if backend == 'blob':
+                            v.update(backend='blob')
+                        items.append(mk_item(prop, mname, bs, rate, nb, tier, v))
+        items.append(mk_item(prop, 'gen_trace_header', (4, 4, 256), 8, (2, 2, 1), tier, dict(fault='short', faulted_first_call=True, stored=(73, 189, 193), version=v025)))
     # header accessors: 4-byte footer reads and whole-array reads
     for v in variants:
         if v.get('fault_in_open'):
@@ -84,7 +97,7 @@ def mk_item(prop, mname, bs, rate, nb, tier, opts):
     desc = '%s|bs=%s|rate=%s|nb=%s' % (mname, 'x'.join(map(str, bs)), rate, 'x'.join(map(str, nb)))
     if 'stored' in opts:
         desc += '|stored=%s|version=%s' % ('+'.join(map(str, opts['stored'])), opts['version'])
-    for k in ('fault', 'fault2', 'backend', 'executor_order', 'fault_in_open', 'preload', 'truncate'):
+    for k in ('fault', 'fault2', 'backend', 'executor_order', 'fault_in_open', 'preload', 'truncate', 'faulted_first_call'):
         if k in opts:
             desc += '|%s=%s' % (k, opts[k])
     it = Item(desc, lambda: readers.item_fn(mname, bs, rate, nb, 'in', opts), timeout_s=150 if tier == 'quick' else 400,
@@ -101,7 +114,7 @@ def replay_candidate(it, c):
     o = meta['opts']
     req = dict(kind='fault', method=meta['method'], bs=meta['bs'], rate=meta['rate'], model=c['model'], version=o.get('version'),
                fault=o.get('fault'), fault2=o.get('fault2'), fault_in_open=bool(o.get('fault_in_open')), preload=bool(o.get('preload')),
-               truncate=bool(o.get('truncate')), stored=list(o.get('stored', ())), backend=o.get('backend', 'file'), handlers=['replay.faults'])
+               truncate=bool(o.get('truncate')), faulted_first_call=bool(o.get('faulted_first_call')), stored=list(o.get('stored', ())), backend=o.get('backend', 'file'), handlers=['replay.faults'])
     return replay(req)
 
 
